@@ -1241,8 +1241,9 @@ func (c Code) Eval(scope *Scope, w io.Writer) (result Object) {
 	for _, obj := range c {
 		if obj != nil {
 			result = obj.Eval(scope, 0)
-			if _, ok := result.(*ReturnResult); ok {
-				// A return-from to a block around the load.
+			switch result.(type) {
+			case *ReturnResult, *GoTo:
+				// A return-from to a block or a go to a tag around the load.
 				return
 			}
 			if w != nil {
